@@ -144,6 +144,7 @@ type xl struct {
 	file        *ast.File // the parsed source file (package-level constants and struct declarations are read from it)
 	recvVar     string
 	otherVar    string // the second object (fields through fn.other)
+	closures    map[string]*closureInfo // named local closures `name := func() {…}` (no parameters, no results)
 	fresh       map[string]bool // locals (lean names) holding a slice this function made itself (x := make(…)): no aliasing
 	scopes      []map[string]tvar
 	consts      map[string]constant.Value // local const declarations
@@ -159,6 +160,15 @@ type xl struct {
 	hoistLeaves int                  // operands seen so far while walking an expression in evaluation order
 	hoistFields int                  // … of which field reads, constants and calls left in place
 	stmts_      int
+}
+
+// closureInfo: a local procedure.  A call `name()` is the body, inlined (a Go closure sees its captured variables by
+// reference, so running the body where the call stands IS its meaning).  As a VALUE (returned, stored) it is the record
+// [source text, captured locals at that moment]: whoever calls it later sees the snapshot — sound when the capturing
+// function does not run any more, which is the case for a returned closure.
+type closureInfo struct {
+	lit      *ast.FuncLit
+	captured []tvar
 }
 
 type xerr struct{ msg string }
@@ -558,9 +568,14 @@ func (x *xl) expr(e ast.Expr) tx {
 			return tx{typ: "untyped", val: constant.MakeFromLiteral(t.Value, t.Kind, 0)}
 		}
 		x.fail(e, "literal %s is outside the subset", t.Value)
+	case *ast.FuncLit:
+		return x.closureValue(t, x.capturedLocals(t))
 	case *ast.Ident:
 		if _, rd, typ, ok := x.place(e); ok {
 			return tx{lean: rd, typ: typ}
+		}
+		if ci, ok := x.closures[t.Name]; ok {
+			return x.closureValue(ci.lit, ci.captured)
 		}
 		switch t.Name {
 		case "true", "false":
@@ -602,6 +617,23 @@ func (x *xl) expr(e ast.Expr) tx {
 		}
 		x.fail(e, "selector %s is neither a mapped receiver field nor a declared constant", exprString(e))
 	case *ast.UnaryExpr:
+		if t.Op == token.AND { // &T{a, b}: a constructor the entry gives a meaning to (shim "&T")
+			if cl, ok := t.X.(*ast.CompositeLit); ok {
+				key := "&" + exprString(cl.Type)
+				sh, has := x.fn.calls[key]
+				if !has || sh.kind != "ext" || len(sh.res) != 1 {
+					x.fail(e, "%s{…} needs a shim %q of kind ext", key, key)
+				}
+				var args []string
+				for _, el := range cl.Elts {
+					if kv, ok := el.(*ast.KeyValueExpr); ok {
+						el = kv.Value
+					}
+					args = append(args, x.defaulted(el, x.expr(el)).lean)
+				}
+				return tx{lean: "(.call " + leanStr(sh.f) + " [" + strings.Join(args, ", ") + "])", typ: sh.res[0]}
+			}
+		}
 		if t.Op == token.AND { // &v where v is the second object: the object value itself
 			if id, ok := t.X.(*ast.Ident); ok && id.Name == x.otherVar && x.otherVar != "" && x.fn.otherAs != nil {
 				f := x.fn.otherAs
@@ -659,6 +691,9 @@ func (x *xl) expr(e ast.Expr) tx {
 	case *ast.CompositeLit:
 		// T{Field: v, …} for a struct type the entry declares: the list of the DECLARED fields in declared order; a
 		// key the entry does not declare is refused, a declared field that is not given takes its zero value
+		if c, ok := x.namedConst(e, transNodeText(e)); ok { // a literal the entry names as a constant (nopCloserSink{os.Stdout})
+			return c
+		}
 		typ, ok := x.tryType(t.Type)
 		if !ok || !strings.HasPrefix(typ, "struct:") {
 			x.fail(e, "composite literal of %s is outside the subset", exprString(t.Type))
@@ -905,9 +940,15 @@ var pendingCall *tcall
 // callExpr translates a call.  If the call has exactly one value it is returned as an expression; calls that
 // are statements (several results, mutation of the receiver, translated functions) set pendingCall.
 func (x *xl) callExpr(c *ast.CallExpr) (tx, bool) {
-	if c.Ellipsis != token.NoPos {
-		if id, ok := c.Fun.(*ast.Ident); !(ok && id.Name == "append") {
-			x.fail(c, "variadic call f(xs...) is outside the subset")
+	// f(xs...): the slice is handed over as ONE value (only shims and translated functions with a variadic
+	// parameter can be callees: everything else fails below for lack of a shim)
+	// a call of a local procedure `name := func() {…}`: its body, inlined
+	if id, ok := c.Fun.(*ast.Ident); ok {
+		if ci, isCl := x.closures[id.Name]; isCl {
+			if _, isVar := x.lookup(id.Name); !isVar && len(c.Args) == 0 {
+				pendingCall = &tcall{ctor: "stmt", value: x.scoped(ci.lit.Body)}
+				return tx{}, true
+			}
 		}
 	}
 	// conversions and builtins
@@ -1018,6 +1059,11 @@ func (x *xl) callExpr(c *ast.CallExpr) (tx, bool) {
 				return tx{}, true
 			case "extstmt":
 				pendingCall = &tcall{ctor: "callX", f: sh.f, args: args, res: sh.res}
+				return tx{}, true
+			case "extstmtfn": // statement  lhs… = f(fnValue, args…): the function value scripts its own outcome; recorded
+				all := append([]string{"(.loc " + leanStr(v.lean) + ")"}, args...)
+				pendingCall = &tcall{ctor: "callX", f: sh.f, args: all, res: sh.res}
+				x.addTrace(c, sh, v.typ+"()", all)
 				return tx{}, true
 			case "mutarg:0", "mutarg:1", "mutarg:2": // statement  args[N], lhs… = f(fnValue, args…)
 				idx, _ := strconv.Atoi(sh.kind[7:])
@@ -1316,6 +1362,31 @@ func (x *xl) withArgs(c *ast.CallExpr, sh shim, key string) []string {
 		out = append(out, x.defaulted(c, x.expr(e)).lean)
 	}
 	return out
+}
+
+// capturedLocals: the locals (in scope now) a function literal mentions, in order of first mention
+func (x *xl) capturedLocals(fl *ast.FuncLit) []tvar {
+	var out []tvar
+	seen := map[string]bool{}
+	ast.Inspect(fl.Body, func(n ast.Node) bool {
+		if id, ok := n.(*ast.Ident); ok {
+			if v, ok := x.lookup(id.Name); ok && !seen[v.lean] {
+				seen[v.lean] = true
+				out = append(out, v)
+			}
+		}
+		return true
+	})
+	return out
+}
+
+// closureValue: a function literal as a value: [its source text, the captured locals]
+func (x *xl) closureValue(fl *ast.FuncLit, captured []tvar) tx {
+	parts := []string{"(.lit (.bytes " + leanBytes([]byte(transNodeText(fl))) + ") /- closure: its source text -/)"}
+	for _, v := range captured {
+		parts = append(parts, "(.loc "+leanStr(v.lean)+")")
+	}
+	return tx{lean: "(.call \"tuple\" [" + strings.Join(parts, ", ") + "])", typ: "opt:Closure"}
 }
 
 func (x *xl) addTrace(c *ast.CallExpr, sh shim, key string, args []string) {
@@ -1763,6 +1834,11 @@ func (x *xl) stmt1(s ast.Stmt) string {
 
 func (x *xl) emitCall(n ast.Node, pc *tcall, lvs []string, ltyps []string) string {
 	switch pc.ctor {
+	case "stmt":
+		if len(lvs) != 0 {
+			x.fail(n, "a local procedure has no value")
+		}
+		return pc.value
 	case "nop":
 		if len(lvs) != 0 {
 			x.fail(n, "a call without meaning has no value")
@@ -1849,6 +1925,35 @@ func (x *xl) assign(t *ast.AssignStmt) string {
 			x.fail(t, "op-assignment changes the type %s to %s", typ, v.typ)
 		}
 		return "(.assign [" + lv + "] [" + v.lean + "])"
+	}
+	// `name := func() {…}`: a local procedure (no parameters, no results)
+	if len(t.Lhs) == 1 && len(t.Rhs) == 1 && t.Tok == token.DEFINE {
+		if fl, ok := t.Rhs[0].(*ast.FuncLit); ok {
+			id, isId := t.Lhs[0].(*ast.Ident)
+			if !isId || (fl.Type.Params != nil && len(fl.Type.Params.List) != 0) || fl.Type.Results != nil {
+				x.fail(t, "local function literals are in the subset only as `name := func() {…}` (no parameters, no results)")
+			}
+			if x.closures == nil {
+				x.closures = map[string]*closureInfo{}
+			}
+			x.closures[id.Name] = &closureInfo{lit: fl, captured: x.capturedLocals(fl)}
+			x.legend = append(x.legend, id.Name+" = a local procedure: calls are its body inlined; as a value it is [source text, captured locals]")
+			return ".skip"
+		}
+	}
+	// `v, ok := m[k]` on a map the entry gives a meaning to (shim "<map type>[]": value and presence)
+	if len(t.Lhs) == 2 && len(t.Rhs) == 1 {
+		if ix, ok := t.Rhs[0].(*ast.IndexExpr); ok {
+			if _, rd, typ, isPlace := x.place(ix.X); isPlace && strings.HasPrefix(typ, "map:") {
+				sh, has := x.fn.calls[typ+"[]"]
+				if !has || sh.kind != "extstmt" || len(sh.res) != 2 {
+					x.fail(t, "map lookup on %s needs a shim %q of kind extstmt with two results", typ, typ+"[]")
+				}
+				k := x.defaulted(ix.Index, x.expr(ix.Index))
+				lvs, typs := x.targets(t, sh.res)
+				return x.emitCall(t, &tcall{ctor: "callX", f: sh.f, args: []string{rd, k.lean}, res: sh.res}, lvs, typs)
+			}
+		}
 	}
 	if len(t.Lhs) == 1 && len(t.Rhs) == 1 {
 		// `cloned := *h`: a struct copy of the receiver into the SECOND object: every field the `other` map shares with
